@@ -63,7 +63,9 @@ func cmdParamMaterialise(args []string) error {
 		case "path":
 			path += "/{p}"
 		case "formData":
-			if *media != "document" {
+			if p["type"] == "file" {
+				op["consumes"] = []any{"multipart/form-data"}
+			} else if *media != "document" {
 				op["consumes"] = []any{"application/x-www-form-urlencoded"}
 			}
 		}
